@@ -174,7 +174,7 @@ def mutate_dna(d, rng):
   def fn(x):
     v, cs = x
     if op == 7 and v is None and len(cs) >= 2:
-      return [['i', rng.randint(0, 5)], cs]                 # stray value on a node that hands its children on (F53)
+      return [['i', rng.randint(0, 5)], cs]                 # stray value on a node that hands its children on (F85)
     if op == 0 and v is not None and v[0] == 'i':
       return [['i', v[1] + rng.randint(1, 4)], cs]          # index (maybe) out of range / duplicate
     if op == 1 and cs:
@@ -640,7 +640,7 @@ def spec_of_pg(spec):
 
 
 def has_stray(spec, dna):
-  """A *valid* DNA carries a value on a node whose children carry the decisions (F53)."""
+  """A *valid* DNA carries a value on a node whose children carry the decisions (F85)."""
   pg = _setup_pg()['pg']
   if isinstance(spec, pg.geno.Space):
     n = len(spec.elements)
@@ -936,7 +936,7 @@ class C13(Prop):
         if W is not None:
           sig += ':where'
         if not rec['strict'] and rec['enc'] and rec['enc'][0] == 'ok':
-          sig = 'stray-dna-value-lost'      # F53: validate / decode ignore the value, encode cannot reproduce it
+          sig = 'stray-dna-value-lost'      # F85: validate / decode ignore the value, encode cannot reproduce it
         return {'signature': sig,
                 'what': 'encode(decode(%s)) = %s (%s)' % (d, json.dumps(rec['enc'])[:200], o.get('enc_error'))}
     if 'iter_error' in obs:
@@ -974,7 +974,7 @@ class C13(Prop):
     if any(not r['valid'] for r in m['dnas']):
       h.append('has-invalid-dna')
     if any(r['valid'] and not r['strict'] for r in m['dnas']):
-      h.append('has-stray-value-dna(F53)')
+      h.append('has-stray-value-dna(F85)')
     if any((not r['valid']) and r['dec'][0] == 'ok' for r in m['dnas']):
       h.append('invalid-dna-decoded')
     for o in out['obs']['per_dna']:
